@@ -124,6 +124,18 @@ def labels(v):
     return EMPTY
 
 
+def noval(ls):
+    """labels of a PREDICATE / POSITION computed from a value: the value-provenance labels ('val:...': "this array holds the numbers of
+    that table") do not pass - a mask built from the damping table is not the damping table"""
+    return frozenset(x for x in ls if not x.startswith("val:"))
+
+
+PREDICATES = {"numpy.isnan", "numpy.isinf", "numpy.isfinite", "numpy.isclose", "numpy.allclose", "numpy.logical_and", "numpy.logical_or", "numpy.logical_not", "numpy.any",
+              "numpy.all", "numpy.argmin", "numpy.argmax", "numpy.nanargmin", "numpy.nanargmax", "numpy.argsort", "numpy.nonzero", "numpy.flatnonzero", "numpy.isin",
+              "numpy.greater", "numpy.less", "numpy.equal", "numpy.not_equal", "numpy.greater_equal", "numpy.less_equal", "numpy.count_nonzero", "len", "isinstance", "bool"}
+PREDICATE_METH = {"any", "all", "argmin", "argmax", "argsort", "nonzero"}
+
+
 def add_labels(v, l):
     if not l:
         return v
@@ -174,6 +186,7 @@ class Frame:
         self.cls = cls
         self.ret = None
         self.returned = False
+        self.skip = None  # 'continue' / 'break' met on a decided path: the rest of the loop body is not executed in this iteration
         self.ctl = EMPTY  # labels of the conditions controlling the current statement
 
 
@@ -187,6 +200,7 @@ class TaintInterp:
         self.unknown = []
         self.steps = 0
         self.generic = 0
+        self.ret_tags = {}    # callee qual -> prefix: element k of its returned tuple gets the value-provenance label 'val:<prefix>:<k>'
 
     # -------------------------------------------------------------- entry
     def call_function(self, fi, args=(), kw=None, bound=None):
@@ -195,7 +209,7 @@ class TaintInterp:
     # -------------------------------------------------------------- statements
     def block(self, stmts, fr):
         for s in stmts:
-            if fr.returned:
+            if fr.returned or fr.skip:
                 return
             self.steps += 1
             if self.steps > 200000:
@@ -228,9 +242,15 @@ class TaintInterp:
                 else:
                     base.extra = join(base.extra, T(labels(v)))
             else:
-                nb = T(labels(base) | labels(v) | labels_of_index(self, t.slice, fr))
-                if isinstance(t.value, (ast.Name, ast.Attribute)):
-                    self.assign(t.value, nb, fr)
+                extra = labels(v) | labels_of_index(self, t.slice, fr)
+                if isinstance(base, T):
+                    # a store INTO an array: every name that refers to this array (the caller's variable when the array was passed to a
+                    # helper, the tuple it was packed in, the loop variable that runs over that tuple) sees the new content
+                    base.l = base.l | extra
+                else:
+                    nb = T(labels(base) | extra)
+                    if isinstance(t.value, (ast.Name, ast.Attribute)):
+                        self.assign(t.value, nb, fr)
         elif isinstance(t, ast.Starred):
             self.assign(t.value, v, fr)
 
@@ -268,11 +288,14 @@ class TaintInterp:
                 r0 = fr.ret
                 self.block(s.body, fr)
                 e1, ret1, rd1 = fr.env, fr.ret, fr.returned
+                sk1, fr.skip = fr.skip, None
                 fr.env = e0
                 fr.returned = False
                 fr.ret = r0
                 self.block(s.orelse, fr)
                 e2, ret2, rd2 = fr.env, fr.ret, fr.returned
+                sk2 = fr.skip
+                fr.skip = sk1 if (sk1 and sk1 == sk2) else None
                 fr.ctl = saved_ctl
                 fr.ret = ret1 if ret2 is None else (ret2 if ret1 is None else (ret1 if ret1 is ret2 else join(ret1, ret2)))
                 if rd1 and rd2:
@@ -285,6 +308,8 @@ class TaintInterp:
                     fr.env, fr.returned = join_env(e1, e2), False
         elif isinstance(s, (ast.For, ast.While)):
             self.loop(s, fr)
+        elif isinstance(s, (ast.Continue, ast.Break)):
+            fr.skip = "continue" if isinstance(s, ast.Continue) else "break"
         elif isinstance(s, (ast.FunctionDef, ast.AsyncFunctionDef)):
             fr.env[s.name] = T()
         elif isinstance(s, ast.Try):
@@ -323,6 +348,9 @@ class TaintInterp:
                         break
                     self.assign(s.target, v, fr)
                     self.block(s.body, fr)
+                    sk, fr.skip = fr.skip, None
+                    if sk == "break":
+                        break
                 return
             ev_ = T(labels(it))
             for _ in range(3):
@@ -333,6 +361,7 @@ class TaintInterp:
                     self.block(s.body, fr)
                 finally:
                     self.generic -= 1
+                    fr.skip = None
                 if fr.returned:
                     fr.returned = False
                     fr.env = join_env(before, fr.env)
@@ -353,6 +382,7 @@ class TaintInterp:
                     self.block(s.body, fr)
                 finally:
                     self.generic -= 1
+                    fr.skip = None
                 if fr.returned:
                     fr.returned = False
                     fr.env = join_env(before, fr.env)
@@ -427,7 +457,7 @@ class TaintInterp:
             v = self.ev(e.operand, fr)
             if isinstance(e.op, ast.Not):
                 t = truth(v)
-                return TC(not t, labels(v)) if t is not None else T(labels(v))
+                return TC(not t, noval(labels(v))) if t is not None else T(noval(labels(v)))
             if isinstance(v, TC) and isinstance(v.v, (int, float)) and isinstance(e.op, ast.USub):
                 return TC(-v.v, v.l)
             return T(labels(v))
@@ -454,7 +484,7 @@ class TaintInterp:
             r = EMPTY
             for v in vals:
                 r |= labels(v)
-            return T(r)
+            return T(noval(r))
         if isinstance(e, ast.Compare):
             l = self.ev(e.left, fr)
             r = self.ev(e.comparators[0], fr)
@@ -476,7 +506,7 @@ class TaintInterp:
             rr = labels(l)
             for c in e.comparators:
                 rr |= labels(self.ev(c, fr))
-            return T(rr)
+            return T(noval(rr))
         if isinstance(e, ast.Call):
             return self.call(e, fr)
         if isinstance(e, ast.IfExp):
@@ -657,7 +687,7 @@ class TaintInterp:
                     r |= labels(a)
                 for a in kw.values():
                     r |= labels(a)
-                return T(r)
+                return T(noval(r) if name in PREDICATE_METH else r)
         if isinstance(f, TExt):
             n = f.name
             if n == "super":
@@ -702,12 +732,14 @@ class TaintInterp:
                     return args[0]
                 if n.startswith("logging") or n.endswith((".debug", ".info", ".warning", ".error")):
                     return TC(None)
+                if n == "numpy.where" and len(args) == 3:
+                    return T(noval(labels(args[0])) | labels(args[1]) | labels(args[2]))
                 r = EMPTY
                 for a in args:
                     r |= labels(a)
                 for a in kw.values():
                     r |= labels(a)
-                return T(r)
+                return T(noval(r) if n in PREDICATES else r)
         r = EMPTY
         for a in args:
             r |= labels(a)
@@ -756,7 +788,11 @@ class TaintInterp:
             self.block(fi.node.body, fr)
         finally:
             self.depth -= 1
-        return fr.ret if fr.ret is not None else TC(None)
+        ret = fr.ret if fr.ret is not None else TC(None)
+        tag = self.ret_tags.get(fi.qual)
+        if tag and isinstance(ret, TTup):
+            ret = TTup([add_labels(x, frozenset({f"val:{tag}:{k}"})) for k, x in enumerate(ret.items)])
+        return ret
 
 
 def labels_of_index(interp, sl, fr):
@@ -768,8 +804,8 @@ def labels_of_index(interp, sl, fr):
             r |= labels_of_index(interp, e, fr)
         return r
     v = interp.ev(sl, fr)
-    # boolean-mask stores (X[mask] = nan) make X depend on the mask
-    return labels(v)
+    # boolean-mask stores (X[mask] = nan) make X depend on the mask (not on the numbers of the table the mask was computed from)
+    return noval(labels(v))
 
 
 def truth(c):
